@@ -31,3 +31,11 @@ def run(repo, res, tier):
     # every value is built from the text at hand by the caller's classes: a decoder or parser that remembers values it
     # made earlier (a per-instance memo of quantities or numbers) hands out an object made from another spelling
     _eff.rule_estate(repo, res, families=("PVLDecoder", "PVLParser"))
+    # the hooks a constructor forwards reach the base class under their own names
+    from .. import hookrules as _hkao
+    _hkao.rule_arg_order(repo, res)
+    # the substitute classes reach the parser for every text (no shortcut around the parser in the entry points), and a
+    # reader built from a decoder alone works with that decoder's grammar
+    from .. import entryrules as _er18, hookrules as _hk18
+    _er18.rule_f1(repo, res, "__init__")
+    _hk18.rule_ctor_default(repo, res)
